@@ -395,6 +395,7 @@ def run(ctx):
     cases = [c for _, c in labelled]
     runner = Runner(workers)
     try:
+        concrete = runner.pool.apply_async(c15_runner._worker, ((runner.src, [{"kind": "concrete:discover-doip"}]),))
         results = evaluate(ctx, runner, cases)
         groups = {}  # (kind of finding, name) -> list of case indices
         for i, ((label, c), (fin, mod, clauses, direct, diff, o)) in enumerate(zip(labelled, results)):
@@ -420,6 +421,29 @@ def run(ctx):
             if diff and not clauses and not direct:
                 groups.setdefault(("tie", "+".join(sorted(set(x.split(":")[0] for x in diff)))), []).append(i)
         ctx.traces_validated += len(cases)
+        # a shipped AsyncScript end to end (no model: the clauses are evaluated directly)
+        co = concrete.get(120)[0]
+        ctx.ev()
+        ctx.kind("set:concrete-command:discover-doip")
+        ctx.notes["discover_doip"] = co
+        if "harness_error" in co:
+            raise RuntimeError("discover doip not drivable: " + co["harness_error"])
+        rc = co["exit"][4:] if co["exit"].startswith("ret:") else None
+        bad = []
+        if rc is None:
+            bad.append("exit-code")
+        if str(co["meta"]) != str(rc):
+            bad.append("meta-exit-code")
+        if len(co["db"]) != 1 or co["db"][0][1] is None or str(co["db"][0][0]) != str(rc):
+            bad.append("db-unfinished")
+        if not co["db_closed"]:
+            bad.append("db-left-open")
+        for b in bad:
+            ctx.disagree(f"spec:{b}@concrete:discover-doip:art:db",
+                         f"`gallia discover doip --db ... --target doip://127.0.0.1:1` breaks the clause '{b}': returned "
+                         f"{co['exit']}, META.json exit_code {co['meta']}, run_meta rows (exit_code, end_time) {co['db']}",
+                         {"case": {"kind": "concrete:discover-doip"}}, impl=co, model=None, spec_violated=True,
+                         site="DoIPDiscoverer.main")
         ctx.notes["violating_runs"] = {f"{k}:{n}": len(v) for (k, n), v in sorted(groups.items())}
 
         for (gk, name), idxs in sorted(groups.items()):
@@ -461,6 +485,14 @@ def run(ctx):
 
 def replay(ctx, case):
     c = case.get("case", {}).get("case") or case.get("case")
+    if c.get("kind", "").startswith("concrete:"):
+        runner = Runner(1)
+        try:
+            co = runner.run([c])[0]
+        finally:
+            runner.close()
+        print("observed:", json.dumps(co))
+        return True
     runner = Runner(1)
     try:
         fin, mod, clauses, direct, diff, o = evaluate(ctx, runner, [c])[0]
